@@ -218,19 +218,19 @@ unsafe fn classify(fs: &FsState, path: *const c_char, follow_last: bool) -> Opti
     canon.strip_prefix(&prefix).map(|r| r.to_owned())
 }
 
+// Kernel code never calls a libc file function while it holds the kernel lock (its own I/O uses direct system
+// calls), so an interposer can wait for the lock: with a multi-threaded compiler another thread may hold it for a
+// moment, and an event must not be lost because of that.
 fn emit(ev: Ev) {
-    if let Ok(mut g) = KERNEL.try_lock() {
-        if let Some(k) = g.as_mut() {
-            k.emit(ev);
-        }
+    let mut g = KERNEL.lock().unwrap_or_else(|p| p.into_inner());
+    if let Some(k) = g.as_mut() {
+        k.emit(ev);
     }
 }
 
 fn choose(site: &str, bound: u64) -> u64 {
-    match KERNEL.try_lock() {
-        Ok(mut g) => g.as_mut().map(|k| k.choose(site, bound)).unwrap_or(0),
-        Err(_) => 0,
-    }
+    let mut g = KERNEL.lock().unwrap_or_else(|p| p.into_inner());
+    g.as_mut().map(|k| k.choose(site, bound)).unwrap_or(0)
 }
 
 /// Looks for a fault rule that fires on this call.
